@@ -13,6 +13,16 @@ package fetcher
 //@ iface Service.FetchAccountByKey(self, ctx, pubKey)
 //@ flag noalloc
 //@ ensures result2 == nil ==> result0 != nil && result1 != nil && result1 == fetchedByKey(self, bytes(pubKey)) && result0 == walletOf(result1)
+// listing (C18): what the fetcher knows is a function of its state, read as constant during one request
+//@ spec walletFound(f any, path string) bool
+//@ spec walletFor(f any, path string) any
+//@ spec accountsFound(f any, wallet string) bool
+//@ spec hasAcc(f any, wallet string, name string) bool
+//@ spec accNamed(f any, wallet string, name string) any
 //@ iface Service.FetchWallet(self, ctx, path)
 //@ flag noalloc
-//@ ensures result1 == nil ==> result0 != nil
+//@ ensures (result1 == nil) <==> walletFound(self, path)
+//@ ensures result1 == nil ==> result0 != nil && result0 == walletFor(self, path)
+//@ iface Service.FetchAccounts(self, ctx, path)
+//@ ensures (result1 == nil) <==> accountsFound(self, path)
+//@ ensures result1 == nil ==> result0 != nil && (forall n string :: (n in result0) <==> hasAcc(self, path, n)) && (forall n string :: n in result0 ==> result0[n] != nil && result0[n] == accNamed(self, path, n))
